@@ -45,7 +45,9 @@ theorem rstBlock_none (s u : Tcb) (seg : Hdr) (h : Tcb.rstBlock s seg = .ok (u, 
   unfold Tcb.rstBlock at h
   split at h
   · cases h; rfl
-  · split at h <;> first | (cases h; done) | (split at h <;> cases h)
+  · split at h <;> first
+      | (cases h; done)
+      | (split at h <;> first | (cases h; done) | (split at h <;> cases h))
 
 theorem synBlock_none (s u : Tcb) (seg : Hdr) (h : Tcb.synBlock s seg = .ok (u, none)) :
     u.state ≠ .SynSent ∧ (s.state ≠ .SynSent → u = s) := by
@@ -132,12 +134,13 @@ theorem ackBlock_state (s u : Tcb) (seg : Hdr) (r : Option ProcessSegmentResult)
       · rw [if_neg cf] at hk
         split at hk <;> (cases hk; exact Or.inl hv)
     case LastAck =>
-      dsimp only at h
-      split at h <;> (cases h; exact Or.inl rfl)
+      obtain ⟨v, r0, hv, hk⟩ := afterAck_inv _ _ _ _ _ h
+      split at hk
+      · cases hk; exact Or.inl hv
+      · split at hk <;> (cases hk; exact Or.inl hv)
     case TimeWait =>
-      rw [Tcb.enqueueThen_eq] at h
       cases h
-      exact Or.inl (Tcb.enqueueBuilt_frame _ _).2.2.2.2.1
+      exact Or.inl rfl
 
 theorem ackBlock_late (s u : Tcb) (seg : Hdr) (r : Option ProcessSegmentResult)
     (h : Tcb.ackBlock s seg = .ok (u, r)) (hl : Late s) : Late u := by
